@@ -305,7 +305,7 @@ pub fn record(args: &Args) {
     let mut passes_total = 0usize;
     let mut rng = Rng::new(seed ^ 0x6a7);
     let mut hung = false;
-    for (gi, (name, t)) in games.iter().enumerate() {
+    'games: for (gi, (name, t)) in games.iter().enumerate() {
         // generic payoffs wherever two implementation runs are compared (tie sensitivity)
         let mut tg = t.clone();
         generic_payoffs(&mut tg, &mut rng);
@@ -314,7 +314,13 @@ pub fn record(args: &Args) {
                 continue;
             }
             let preset = PARAM_SETS[(gi + mi) % 10];
+            // A regret exponent of -inf forgets all earlier regret: the next strategy is the normalised positive part of ONE
+            // iteration's regrets, and the regret of an action played with probability one is zero up to the rounding of
+            // the summation order - its sign then decides the strategy two iterations later.  Such runs are comparable
+            // across thread counts for two iterations only (found by the thorough tier: a false alarm at T = 10)
+            let forgetful = ["forget-pos", "forget-both", "argmin"].contains(&preset);
             for &iters in budgets {
+                let iters = if forgetful { iters.min(2) } else { iters };
                 let sd = seed.wrapping_mul(31).wrapping_add(gi as u64);
                 let base = match traced(&tg, meth, preset, 1, iters, sd, 0) {
                     Ok(b) => b,
@@ -329,7 +335,7 @@ pub fn record(args: &Args) {
                 passes_total += base.1.len();
                 // thresholded runs (the stop decision must be the one-thread one): a longer budget, thresholds that
                 // separate the players' bounds of the one-thread run, two thread counts
-                if iters == *budgets.last().unwrap() {
+                if iters == *budgets.last().unwrap() && !forgetful {
                     let long = if thorough { 30 } else { 12 };
                     if let Ok((its, _, _)) = thresholded(&tg, meth, preset, 1, long, 0.0, sd) {
                         for thr in separating_thresholds(&its, if thorough { 8 } else { 3 }) {
@@ -346,7 +352,9 @@ pub fn record(args: &Args) {
                                             hung = true;
                                             cmp.line(&json!({"status": "violation", "game": name, "method": meth, "k": k, "T": "u64::MAX", "r": thr,
                                                 "mismatch": [{"class": "unlimited-hang", "what": "no return within 120 s with the unlimited budget although the bounded run crosses the threshold"}], "tree": tg}));
-                                            break;
+                                            // the abandoned solve keeps running (and keeps writing into the event log) on its own
+                                            // thread: nothing recorded from here on could be trusted, and the verdict is settled
+                                            break 'games;
                                         }
                                         Some(Err(msg)) => cmp.line(&json!({"status": "violation", "game": name, "method": meth, "k": k, "T": "u64::MAX", "r": thr,
                                             "mismatch": [{"class": "panic", "what": "solve with the unlimited budget failed or panicked", "observed": msg}], "tree": tg})),
@@ -423,6 +431,9 @@ pub fn record(args: &Args) {
     // large games (sizes that cross thresholds an implementation might special-case): result of k threads against one
     // thread only, no event trace
     for (gi, (name, t)) in zoo::large().iter().enumerate() {
+        if hung {
+            break;
+        }
         let mut tg = t.clone();
         cfr::label_chance(&mut tg);
         generic_payoffs(&mut tg, &mut rng);
@@ -456,7 +467,7 @@ pub fn record(args: &Args) {
     }
     // a game whose infosets are shared by all parallel tasks, many threads, repeated: the accumulators under contention
     // (a lost update shows as a difference far above rounding; 50 iterations keep rounding drift below 1e-11)
-    {
+    if !hung {
         let mut tg = zoo::hot();
         generic_payoffs(&mut tg, &mut rng);
         for meth in ["Full", "Sampled"] {
